@@ -27,6 +27,7 @@ ASSUMPTIONS = [
     "sort / key=value filter / unique keys are drawn from keys present in every item with mutually comparable values (KeyError / TypeError otherwise in both worlds)",
     "each editing call runs on a deepcopy so that the shared-dict discipline (C17) does not interfere",
     "dict key order inside an item is not compared",
+    "rename onto a key that already exists in some item (a collision) is not judged",
 ]
 REACH = {"quick": {"op:tail": 300, "op:insert": 300, "op:sort": 500, "op:unique": 300, "op:filter": 500, "op:mul": 200, "op:slice": 300, "chain>=3": 2000,
                    "tail:n=0": 30, "insert:at-or-past-end": 60, "insert:negative": 60, "sort:none-present": 150, "len:0": 200}}
@@ -198,6 +199,10 @@ def usable(L, op, arg):
         return True
     if op == "unique": return all(k in x for x in L for k in arg) and all(not isinstance(x.get(k), (list, dict)) for x in L for k in arg)
     if op == "unique" and not arg: return True
+    if op == "rename":
+        # renaming onto a key that already exists in an item (and is not itself renamed away) is a collision whose winner is unspecified
+        olds = {old for _, old in arg}
+        return not any(new in x and new not in olds for x in L for new, _ in arg)
     if op in ("modify", "modify_if"): return all("_tag_" in x for x in L)
     if op in ("filter_pred", "filter_out_pred"): return all(("a" in x and "b" in x and "_tag_" in x) for x in L)
     return True
